@@ -16,3 +16,25 @@ fn anchor_map_new() -> AnchorMap { unimplemented!() }
 /// `Error::InvalidOptions(text.to_string())`
 #[verifier::external_body]
 fn ser_error_invalid_options(text: &str) -> SerError { unimplemented!() }
+#[verifier::external_body]
+pub struct FmtError { _p: () }
+impl std::convert::From<FmtError> for SerError {
+    #[verifier::external_body]
+    fn from(e: FmtError) -> SerError { unimplemented!() }
+}
+/// the decimal text `Display` writes for an integer (std; uninterpreted)
+pub uninterp spec fn decimal_text(v: int) -> Seq<char>;
+/// the word written for None / unit
+pub open spec fn null_word() -> Seq<char> { "null"@ }
+impl Sink {
+    /// fmt::Write::write_str
+    #[verifier::external_body]
+    pub fn write_str(&mut self, s: &str) -> (r: Result<(), FmtError>)
+        ensures r is Ok ==> final(self).text() == old(self).text() + s@,
+    { unimplemented!() }
+    /// `write!(out, "{}", v)` for an integer
+    #[verifier::external_body]
+    pub fn write_decimal(&mut self, v: Ghost<int>) -> (r: Result<(), FmtError>)
+        ensures r is Ok ==> final(self).text() == old(self).text() + decimal_text(v@),
+    { unimplemented!() }
+}
